@@ -140,9 +140,13 @@ class Sender(object):
 
     def send(self, ctr):
         ''' Run the real transmit chain; returns the encoded bundle. '''
-        ntgt = sum(1 for b in ctr.bundle.blocks if b.type_code in self.tgt_types) + 4
+        # `tgt_types`: block type codes of one association, or a sequence of such lists = several associations in that order
+        tt = list(self.tgt_types)
+        assoc_lists = [list(x) for x in tt] if tt and isinstance(tt[0], (list, tuple)) else [tt]
+        flat = [c for lst in assoc_lists for c in lst]
+        ntgt = sum(1 for b in ctr.bundle.blocks if b.type_code in flat) + 4
         self.ctx.sec_assoc[:] = [SecAssociation(src_pat=re.compile('.*'), dst_pat=re.compile('.*'),
-                                                tgt_blk_types=self.tgt_types, templates=self._templates(ntgt))]
+                                                tgt_blk_types=lst, templates=self._templates(ntgt)) for lst in assoc_lists]
         got = []
         ctr.route = TxRouteItem(eid_pattern=re.compile('.*'), next_nodeid=DST_NODE, cl_type='cap')
         ctr.sender = lambda data: got.append(bytes(data))
@@ -150,8 +154,10 @@ class Sender(object):
         ctr.reload()
         self.last_plain = {int(b.block_num): bytes(b.getfieldval('btsd') or b'') for b in ctr.bundle.blocks
                            if b.block_num is not None}
-        self.last_selected = sorted(int(b.block_num) for b in ctr.bundle.blocks
-                                    if b.block_num is not None and int(b.type_code) in self.tgt_types)
+        # in policy order: association by association, ascending block number within one
+        self.last_selected = [n for lst in assoc_lists
+                              for n in sorted(int(b.block_num) for b in ctr.bundle.blocks
+                                              if b.block_num is not None and int(b.type_code) in lst)]
         self.agent.send_bundle(ctr)
         return got[0] if got else None
 
@@ -1388,9 +1394,10 @@ def campaign(chk, prop, conf):
     # ---- 1. the agent's own security blocks, applied through the security policy (one association whose
     #         type list selects 1, 2 or 3 blocks): correspondence, what is on the wire, recovery, key faults,
     #         alteration of each target in turn
-    n_corr = 6 if quick else 60
+    n_corr = 8 if quick else 64
     flip_pool = []
-    policies = [((1,), None), ((1, 7), [0]), ((1, 7, 10), [0, 1]), ((1,), None), ((1, 6, 7), [2, 0]), ((1, 10), [1, 3])]
+    policies = [((1,), None), ((1, 7), [0]), (((7,), (1,)), [0]), ((1, 7, 10), [0, 1]), ((1,), None), (((10, 7), (1,)), [1, 0]),
+                ((1, 6, 7), [2, 0]), ((1, 10), [1, 3])]
     for mode in modes:
         snd = Sender(keys, mode, rng=rng)
         for i in range(n_corr):
@@ -1409,7 +1416,7 @@ def campaign(chk, prop, conf):
             check_captures(chk, a1 + a2, s1 + s2, '%s own block' % mode)
             selected, plain = snd.last_selected, snd.last_plain
             replay = dict(base, mode=mode, accept=accept, data=data.hex(), payload=payload.hex(), observed=out.summary(),
-                          policy_types=list(tgt_types), selected_blocks=selected,
+                          policy_types=repr(tgt_types), selected_blocks=selected,
                           plaintexts={str(k): v.hex() for k, v in plain.items()})
             chk.count('%s:own-bundles' % mode)
             chk.count('%s:policy-selects-%d-blocks' % (mode, len(selected)))
@@ -1427,7 +1434,7 @@ def campaign(chk, prop, conf):
                 chk.violation('%s:source-security-block-undecodable' % prop, 'security block of the source does not decode: %s' % err, replay)
                 continue
             wire_ok = True
-            if list(asb.targets) != selected:
+            if sorted(asb.targets) != sorted(selected) or len(set(asb.targets)) != len(asb.targets):
                 wire_ok = False
                 chk.violation('%s:policy-targets-mismatch' % prop,
                               'the security block lists targets %s, the policy selects blocks %s' % (asb.targets, selected), replay)
@@ -1570,6 +1577,7 @@ def campaign(chk, prop, conf):
     two_blocks_monitor(chk, prop, keyhex, conf, reps)
     eid_normalisation_monitor(chk, prop, keyhex, conf, reps)
     multi_recipient_monitor(chk, prop, keyhex, conf, reps)
+    malformed_structure_monitor(chk, prop, keyhex, conf, reps)
     if conf:
         admin_bcb_monitor(chk, prop, keyhex, reps)
     else:
@@ -2202,6 +2210,43 @@ def multi_recipient_monitor(chk, prop, keyhex, conf, reps):
                                           dict(replay, observed=out.summary()))
                 else:
                     _expect_reject(chk, prop, 'no-usable-recipient-delivered', 'recipients [%s]: none is usable by the receiver' % name, out, replay)
+
+
+def malformed_structure_monitor(chk, prop, keyhex, conf, reps):
+    """ A genuine security block with a duplicated parameter id (in front of / behind the genuine parameter) or with a
+    second result for a target (in front of / behind the genuine one): must be rejected as a security failure. """
+    rng = chk.rng
+    keys = keys_from_hex(keyhex)
+    kraw = bytes.fromhex(keyhex['enc' if conf else 'mac'])
+    sc = [[0, 1], [-1, 1]]
+    for rep in range(reps):
+        ib, payload = plain_bundle(rng, chk.tier, extra=rep % 2, payload=b'exactly one parameter, exactly one result')
+        n1 = max(b['num'] for b in ib.blocks) + 1
+        if conf:
+            sec, blocks = craft_bcb(chk, ib, kraw, [1], n1, [bytes(rng.getrandbits(8) for _ in range(12))], scope=sc)
+        else:
+            sec, blocks = craft_bib(chk, ib, kraw, [1], n1, scope=sc), ib.blocks
+        junk_id = 18 if not conf else 17
+        edits = [
+            ('duplicate-parameter', 'AAD-scope parameter duplicated in front of the genuine one (other value)',
+             lambda c: c['params'].insert(0, (5, {0: 0, -1: 3}))),
+            ('duplicate-parameter', 'AAD-scope parameter duplicated behind the genuine one', lambda c: c['params'].append(c['params'][0])),
+            ('duplicate-parameter', 'an unknown parameter id twice', lambda c: c['params'].extend([(77, 0), (77, 1)])),
+            ('extra-result', 'a second result with another result id behind the genuine one',
+             lambda c: c['results'][0].append((junk_id, b'\x80'))),
+            ('extra-result', 'a second result with another result id in front of the genuine one',
+             lambda c: c['results'][0].insert(0, (junk_id, b'\x80'))),
+        ]
+        for accept in (True, False):
+            base = dict(keys=keyhex, mode='malformed-structure', accept=accept, payload=payload.hex())
+            data = assemble(ib, insert_before_payload(blocks, [sec]))
+            if not _expect_deliver(chk, prop, 'structure monitor, genuine block', Receiver(keys, accept=accept).feed(data), dict(base, data=data.hex())):
+                continue
+            for sig, what, fn in edits:
+                v = assemble(ib, insert_before_payload(blocks, [rebuild_asb(sec, fn)]))
+                o = Receiver(keys, accept=accept).feed(v)
+                chk.count('malformed-structure:%s' % sig)
+                _expect_reject(chk, prop, '%s-accepted' % sig, what, o, dict(base, data=v.hex(), original=data.hex(), what=what))
 
 
 def json_scope(scope):
